@@ -297,8 +297,55 @@ func (c *VCtx) applyContract(fr *Frame, st *State, cc *ssa.CallCommon, ct *FuncC
 		c.fact(Implies(st.pc, g))
 	}
 	if ct.Opts["frame"] == "skip" {
-		// the callee's frame is not verified: everything may have changed
+		// the callee's frame is not verified: everything may have changed, except this thread's local
+		// variables that the callee cannot reach (cells not written by any closure handed to it)
+		savedCells := st.cells
+		savedHeaps := map[string]*Term{}
+		for k, v := range st.heaps {
+			if strings.HasPrefix(k, "C:") && !strings.HasPrefix(k, "C:glob") {
+				savedHeaps[k] = v
+			}
+		}
+		savedEpochHeaps := map[string]*Term{}
+		for k, srt := range c.heapSorts {
+			if strings.HasPrefix(k, "C:") && !strings.HasPrefix(k, "C:glob") {
+				if _, ok := savedHeaps[k]; !ok {
+					savedEpochHeaps[k] = c.heap(st, k, srt)
+				}
+			}
+		}
 		c.havocAll(st)
+		for k, v := range savedHeaps {
+			st.heaps[k] = v
+		}
+		for k, v := range savedEpochHeaps {
+			st.heaps[k] = v
+		}
+		st.cells = savedCells
+		for _, a := range args {
+			fvv, ok := a.(*FnVal)
+			if !ok {
+				continue
+			}
+			for i, b := range fvv.Binds {
+				l, isLoc := b.(*Loc)
+				if !isLoc || l.Kind != "cell" {
+					continue
+				}
+				if freeVarWritten(fvv.Fn, i, 0) {
+					h := c.heap(st, l.Heap, ArrSort(SRef, l.Sort))
+					st.heaps[l.Heap] = c.name("h", Store(h, l.Base, c.fresh("cv", l.Sort)))
+					delete(st.cells, l.Base.S)
+				}
+			}
+		}
+		for _, a := range args {
+			if l, isLoc := a.(*Loc); isLoc && l.Kind == "cell" {
+				h := c.heap(st, l.Heap, ArrSort(SRef, l.Sort))
+				st.heaps[l.Heap] = c.name("h", Store(h, l.Base, c.fresh("cv", l.Sort)))
+				delete(st.cells, l.Base.S)
+			}
+		}
 	}
 	c.applyModifies(st, ct, callee, fv, args)
 	if c.mayCallBack(callee, 0, map[*ssa.Function]bool{}) {
